@@ -42,6 +42,8 @@ pub struct FaultState {
     /// after the first injected failure keep failing every call
     pub sticky: bool,
     pub tripped: bool,
+    /// count (and fail) only calls on open handles: reads and writes in the middle of a transfer
+    pub handles_only: bool,
     pub kind: io::ErrorKind,
     /// nodes whose calls are counted / failed (bit per node id); 0 = none
     pub nodes: u64,
@@ -61,6 +63,7 @@ impl Default for FaultState {
             fail_at: None,
             sticky: false,
             tripped: false,
+            handles_only: false,
             kind: io::ErrorKind::Other,
             nodes: 0,
             short_read: 0,
@@ -156,7 +159,7 @@ impl Ctl {
             return None;
         }
         let mut f = self.fault.lock().unwrap();
-        if !f.armed || (f.nodes >> node) & 1 == 0 {
+        if !f.armed || (f.nodes >> node) & 1 == 0 || (f.handles_only && !on_handle) {
             return None;
         }
         f.counter += 1;
